@@ -16,23 +16,6 @@ use BuildFailure::InvalidSize;
 spec fn le32s(vals: Seq<u32>, k: int) -> Seq<u8> decreases k { if k <= 0 { Seq::empty() } else { le32s(vals, k - 1) + le32(vals[k - 1]) } }
 proof fn lemma_le32s_len(vals: Seq<u32>, k: int) requires 0 <= k <= vals.len() ensures le32s(vals, k).len() == 4 * k decreases k
 { if k > 0 { lemma_le32s_len(vals, k - 1); lemma_le32_len(vals[k - 1]); } }
-/// the length prefix round trip (as in v_wiw; the same fact the complete Kani harness k_len::write_len_roundtrip decides on the real code)
-proof fn lemma_dec_len(n: u16, rest: Seq<u8>) requires n <= 32767 ensures dec_len(enc_len(n) + rest) == Some((rest, n))
-{
-    let d = enc_len(n) + rest;
-    if n < 127 {
-        assert(d[0] == n as u8);
-        assert(d.subrange(1, d.len() as int) =~= rest);
-    } else {
-        let b0 = (((n >> 8) | 0x80) & 0xff) as u8;
-        let b1 = (n & 0xff) as u8;
-        assert(d[0] == b0 && d[1] == b1);
-        assert(b0 >= 128) by (bit_vector) requires b0 == (((n >> 8) | 0x80u16) & 0xff) as u8;
-        assert((((b0 as u16) & 0x7F) << 8) | (b1 as u16) == n) by (bit_vector)
-            requires n <= 32767u16, b0 == (((n >> 8) | 0x80u16) & 0xff) as u8, b1 == (n & 0xff) as u8;
-        assert(d.subrange(2, d.len() as int) =~= rest);
-    }
-}
 //@include specs/codec_lemmas.rs.inc
 
 /// R13: `S.chars()` collected: the characters of the text in order, each at least one byte long (ASSUMED std)
